@@ -110,14 +110,19 @@ def build(cs, tier):
         if not out.ok:
             continue
         h.apply(eltorito_op(rng, h.sess.model, bop['iso_path'], media, h.sess.model.boot is None))
+        if media == 'noemul' and rng.random() < 0.15 and h.sess.model.boot is not None and len(h.sess.model.boot['entries']) < 30:
+            # a second catalog entry that boots the very same file (e.g. BIOS and EFI from one image)
+            again = eltorito_op(rng, h.sess.model, bop['iso_path'], media, False)
+            again.pop('boot_info_table', None)
+            h.apply(again)
         if rng.random() < 0.2 and h.sess.model.boot is not None:
             # hide / unlink the boot file by one of its names
             names = h.sess.model.names_of(bop['cid'])
             # a boot image without any name keeps only its load size when reopened (documented:
             # "we only know the number of emulated sectors"), so only fully hide images whose
             # load size covers them
-            last = h.sess.model.boot['entries'][-1]
-            can_hide_all = last['media_name'] == 'noemul' and last['boot_load_size'] is None
+            mine = [e_ for e_ in h.sess.model.boot['entries'] if e_['cid'] == bop['cid']]
+            can_hide_all = bool(mine) and all(e_['media_name'] == 'noemul' and e_['boot_load_size'] is None for e_ in mine)
             if len(names) >= (1 if can_hide_all else 2) and rng.random() < 0.5:
                 ns, p = rng.choice(names)
                 h.apply({'op': 'rm_hard_link', '%s_path' % ns: p})
